@@ -152,6 +152,7 @@ const preludeCore = `
 (define-fun go-mod ((x Int) (y Int)) Int (- x (* y (go-div x y))))
 (declare-fun ix (Int Int) Int)
 (assert (forall ((o Int) (k Int)) (! (= (ix o k) (+ o k)) :pattern ((ix o k)))))
+(assert (forall ((o Int) (a Int) (k Int)) (! (= (ix (ix o a) k) (ix o (+ a k))) :pattern ((ix (ix o a) k)))))
 (declare-fun sym-mod (Int Int) Int)
 (declare-fun sym-div (Int Int) Int)
 (assert (forall ((x Int) (y Int)) (! (and (=> (and (<= 0 x) (< x y)) (and (= (sym-mod x y) x) (= (sym-div x y) 0))) (=> (and (< 0 y) (<= y x) (< x (* 2 y))) (and (= (sym-mod x y) (- x y)) (= (sym-div x y) 1))) (=> (and (<= 0 x) (< 0 y)) (and (<= 0 (sym-mod x y)) (< (sym-mod x y) y) (<= 0 (sym-div x y)) (<= (sym-div x y) x)))) :pattern ((sym-mod x y)) :pattern ((sym-div x y)))))
